@@ -3546,18 +3546,10 @@ def prefix_errors(  # noqa: C901
             )
             for e in prefix_tree_entries
         ]
-        entries_ = [
-            full_tree_one_level_output.path_entry_type(
-                e,
-                full_tree_type,
-                full_tree_one_level_output.kind,
-            )
-            for e in full_tree_entries
-        ]
-        assert (
-            both_standard_dict  # special handling for dictionary types already done in the keys check above
-            or entries == entries_
-        ), f'equal pytree nodes gave different keys: {entries} and {entries_}'
+        # NOTE: the path entries of the full subtree are deliberately not compared: path entries are not
+        # part of the pytree structure (two custom nodes with the same type, metadata, and number of
+        # children match for `PyTreeSpec.flatten_up_to()` and `PyTreeSpec.is_prefix()` regardless of
+        # their entries), so the prefix tree's entries are used to locate the children.
         # pylint: disable-next=invalid-name
         for e, t1, t2 in zip(entries, prefix_tree_children, full_tree_children):
             yield from helper(accessor + e, t1, t2)
